@@ -453,6 +453,80 @@ def r7_equal_nodes_match(ctx, sym, mod):
     ctx.floor('R7', 'equal pairs', n, 20)
 
 
+def r9_function_placeholder_binding(ctx, sym):
+    ctx.rule('R9', "AstMap.add_func_to_sym_table executed abstractly (real AstMap / AstSymbol code) for the student nodes "
+                   "the matcher passes for a function placeholder - a FunctionDef, the Name of a plain call f(...), the "
+                   "Attribute of a method call obj.m(...) - on model nodes that carry only the fields their kind has "
+                   "(and, as CaitNode does, answer None for any other): the symbol recorded under the placeholder "
+                   "carries the student's identifier")
+    from .c10 import astmap_session, ASTMAP
+    amod = ctx.repo.module(ASTMAP)
+    fn = amod.func('AstMap.add_func_to_sym_table')
+    ctx.analysed_function(amod, fn)
+
+    def lenient(o):
+        o.attrs['__unknown_attr__'] = lambda attr: None   # CaitNode.__getattr__ never raises for an unknown field
+        return o
+
+    def cases():
+        fdef = lenient(Obj('CaitNode<FunctionDef area>', ast_name='FunctionDef', lineno=1, parent=None, _id='area',
+                   astNode=Obj('ast.FunctionDef', __astclass__='FunctionDef', name='area')))
+        yield 'FunctionDef', fdef, 'area'
+        call = Obj('CaitNode<Call>', ast_name='Call', lineno=1, parent=None,
+                   astNode=Obj('ast.Call', __astclass__='Call'))
+        name = Obj('CaitNode<Name area>', ast_name='Name', lineno=1, parent=call, _id='area', id='area',
+                   astNode=Obj('ast.Name', __astclass__='Name', id='area', _id='area'))
+        call.attrs['func'] = name
+        yield 'plain call area(...)', name, 'area'
+        mcall = Obj('CaitNode<Call>', ast_name='Call', lineno=1, parent=None,
+                    astNode=Obj('ast.Call', __astclass__='Call'))
+        attr = Obj('CaitNode<Attribute append>', ast_name='Attribute', lineno=1, parent=mcall, _id='append',
+                   attr='append', astNode=Obj('ast.Attribute', __astclass__='Attribute', attr='append', _id='append'))
+        attr.attrs['value'] = Obj('CaitNode<Name names>', ast_name='Name', id='names', _id='names', parent=attr,
+                                  astNode=Obj('ast.Name', __astclass__='Name', id='names'))
+        mcall.attrs['func'] = attr
+        yield 'method call names.append(...)', attr, 'append'
+    n = 0
+    for what, std_node, want in cases():
+        n += 1
+        node_ = std_node
+        while isinstance(node_, Obj):
+            lenient(node_)
+            if isinstance(node_.attrs.get('value'), Obj):
+                lenient(node_.attrs['value'])
+            node_ = node_.attrs.get('parent')
+        got, raised = None, None
+        try:
+            fd = astmap_session(sym, amod)
+            m = fd.calls['AstMap']()
+            fd.calls['type'] = lambda o: (Obj('type', __name__=o.attrs.get('__astclass__', o._name))
+                                          if isinstance(o, Obj) else type(o))
+            fd.call_method(m, 'add_func_to_sym_table', ['_f_', std_node])
+            table = m.attrs.get('func_table')
+            syms = None
+            if isinstance(table, Obj):
+                syms = fd.call_method(table, '__getitem__', ['_f_']) if '_f_' in (table.attrs.get('data') or
+                                                                                   table.attrs.get('keys') or ['_f_']) else None
+            elif isinstance(table, dict):
+                syms = table.get('_f_')
+            if isinstance(syms, Obj) and 'id' not in syms.attrs:
+                inner = [v for v in syms.attrs.values() if isinstance(v, list)]
+                syms = inner[0] if inner else syms
+            if isinstance(syms, list):
+                got = [x.attrs.get('id') if isinstance(x, Obj) else x for x in syms]
+            elif isinstance(syms, Obj):
+                got = [syms.attrs.get('id')]
+        except Inconclusive as e:
+            raise AnalysisError("C11 R9: add_func_to_sym_table outside the decidable fragment: %s" % e)
+        except Raised as e:
+            raised = e
+        ctx.check(raised is None and got == [want], 'R9', 'func-placeholder-bound-to-identifier[%s]' % what, amod, fn,
+                  "binding _f_ to the %s records %s%s; the placeholder must be bound to %r" % (
+                      what, got, '' if raised is None else ' (raises %s: %s)' % (raised.kind, getattr(raised, 'detail', '')), want),
+                  "pattern `_lst_._add_(_r_)` against `names.append(raw)`: the match binds _add_ to None")
+    ctx.floor('R9', 'function-placeholder cases', n, 3)
+
+
 def run(ctx):
     sym = Symbols(ctx.repo)
     mod = ctx.repo.module(MATCH)
@@ -463,6 +537,7 @@ def run(ctx):
     r5_pattern_text(ctx, sym, mod)
     r6_placeholder_named_identifiers(ctx, sym, mod)
     r7_equal_nodes_match(ctx, sym, mod)
+    r9_function_placeholder_binding(ctx, sym)
     # R8: the student tree searched is the parse of the code asked for, whatever was queried before (the C08.R8
     # decision table over call sequences of reparse_if_needed, here for find_matches)
     from .c08 import r8_program_identity
